@@ -83,6 +83,36 @@ def replay_candidates(record, repo):
 def replay_file(path, repo):
     rec = json.load(open(path))
     print(f"obligation: {rec.get('obligation')}\ngoal: {rec.get('goal')}\nstatus: {rec.get('status')} {rec.get('solver_reason') or ''}")
+    ob = rec.get("obligation") or ""
+    if not rec.get("function"):
+        # obligations of the property-specific deciders: re-run their replay on this tree
+        sys.path.insert(0, ROOT)
+        res = dict(open={ob: dict(text="", kind="")})
+        try:
+            if ob.startswith("C13/"):
+                from pyvc import hashcheck
+                hashcheck.replay_open(res, repo)
+            elif ob.startswith("C17/"):
+                from pyvc import rgcheck
+                rgcheck.replay(res, repo)
+            elif ob.startswith("C12/parse_file"):
+                from pyvc import importcheck
+                importcheck._replay(res, repo)
+            elif ob.startswith("C16/"):
+                from pyvc import detcheck
+                full = detcheck.check(repo=repo)
+                res = dict(open={k: v for k, v in full["open"].items() if k == ob})
+                if not res["open"]:
+                    res = dict(open={ob: dict(text="holds on this tree")})
+        except Exception as ex:
+            print("replay error:", repr(ex))
+        info = res["open"].get(ob, {})
+        print(info.get("text", "")[-1500:])
+        if info.get("reproduced"):
+            print(f"VIOLATION property={rec.get('property')} replay={path}")
+            return 1
+        print("not reproduced on this tree")
+        return 0
     r = replay_candidates(rec, repo)
     print(json.dumps(r, indent=1, default=str)[:4000])
     if r.get("reproduced"):
